@@ -171,6 +171,9 @@ class SimFS:
     def fired(self, kind):
         self.fault_counts[kind] = self.fault_counts.get(kind, 0) + 1
 
+    def make_namespace(self, d):
+        self.dirs.add(d)
+
     # -- direct (test-side) access, not traced
     def put(self, path, data: bytes):
         self.files[path] = bytearray(data)
@@ -282,6 +285,9 @@ class RealFS:
 
     def _map(self, path):
         return os.path.join(self.root, os.fspath(path)[len(PREFIX):])
+
+    def make_namespace(self, d):
+        os.makedirs(self._map(d), exist_ok=True)
 
     @property
     def files(self):
